@@ -223,7 +223,7 @@ func genC14(rt *rapid.T) C14Sc {
 		switch op.Op {
 		case "set", "delete", "get", "typed", "mutold":
 			op.Key = key("key")
-			op.Val = rapid.IntRange(0, 25).Draw(rt, "val")
+			op.Val = rapid.IntRange(0, 27).Draw(rt, "val")
 		case "merge":
 			if uniform(rt, 6, "nilmerge") == 0 {
 				op.Nil = true
@@ -233,11 +233,11 @@ func genC14(rt *rapid.T) C14Sc {
 			for j := 0; j < nk; j++ {
 				op.Keys = append(op.Keys, key("mkey"))
 			}
-			op.Vals = []int{rapid.IntRange(0, 25).Draw(rt, "mv"), rapid.IntRange(0, 25).Draw(rt, "mv2")}
+			op.Vals = []int{rapid.IntRange(0, 27).Draw(rt, "mv"), rapid.IntRange(0, 27).Draw(rt, "mv2")}
 		case "mergesnap", "mutsnap", "mutkeys":
 			op.Snap = rapid.IntRange(0, 7).Draw(rt, "snap")
 			op.Key = key("skey")
-			op.Val = rapid.IntRange(0, 25).Draw(rt, "sval")
+			op.Val = rapid.IntRange(0, 27).Draw(rt, "sval")
 			op.Nil = rapid.Bool().Draw(rt, "del")
 		}
 		sc.Ops = append(sc.Ops, op)
